@@ -5,42 +5,349 @@ import TddaVerif.Props.C03Spec
 namespace TddaVerif.Props.C03.Lemmas
 open TddaVerif.Py TddaVerif.Rexpy TddaVerif.Props.C03
 
+/-! ### pieces -/
+
+/-- the pieces `caps` are accepted, one by one, by the fragments of `p` -/
+def PiecesOK (T : CharTable) (E : List Char) : Pattern → List Line → Prop
+  | [], [] => True
+  | f :: fs, g :: gs => fragAccepts T E f g = true ∧ PiecesOK T E fs gs
+  | _, _ => False
+
+theorem piecesOK_iff (T : CharTable) (E : List Char) (p : Pattern) (caps : List Line) :
+    PiecesOK T E p caps ↔ caps.length = p.length ∧
+      ∀ i, i < p.length → fragAccepts T E (p.getD i ⟨.code ' ', 0, none, false⟩) (caps.getD i []) = true := by
+  induction p generalizing caps with
+  | nil => cases caps <;> simp [PiecesOK]
+  | cons f fs ih =>
+    cases caps with
+    | nil => simp [PiecesOK]
+    | cons g gs =>
+      simp only [PiecesOK, ih, List.length_cons, Nat.add_right_cancel_iff]
+      constructor
+      · rintro ⟨h1, h2, h3⟩
+        refine ⟨h2, fun i hi => ?_⟩
+        cases i with
+        | zero => simpa using h1
+        | succ i => simpa using h3 i (by omega)
+      · rintro ⟨h1, h2⟩
+        refine ⟨by simpa using h2 0 (by omega), h1, fun i hi => ?_⟩
+        simpa using h2 (i + 1) (by omega)
+
+theorem matches_of_piecesOK (T : CharTable) (E : List Char) (p : Pattern) (caps : List Line)
+    (h : PiecesOK T E p caps) : Matches T E p caps.flatten := by
+  induction p generalizing caps with
+  | nil => cases caps <;> simp [PiecesOK] at h ⊢; exact Matches.nil
+  | cons f fs ih =>
+    cases caps with
+    | nil => simp [PiecesOK] at h
+    | cons g gs =>
+      simp only [PiecesOK] at h
+      simp only [List.flatten_cons]
+      exact Matches.cons f fs g gs.flatten h.1 (ih gs h.2)
+
+theorem piecesOK_of_matches (T : CharTable) (E : List Char) (p : Pattern) (s : Line)
+    (h : Matches T E p s) : ∃ caps : List Line, caps.flatten = s ∧ PiecesOK T E p caps := by
+  induction h with
+  | nil => exact ⟨[], rfl, trivial⟩
+  | cons f fs g rest hacc _ ih =>
+    obtain ⟨caps, hc, hp⟩ := ih
+    exact ⟨g :: caps, by simp [hc], hacc, hp⟩
+
+/-! ### the matcher -/
+
+theorem fragAccepts_iff (T : CharTable) (E : List Char) (f : Frag) (hf : ∀ lit, f.atom ≠ .escStr lit)
+    (g : Line) :
+    fragAccepts T E f g = true ↔
+      f.lo ≤ g.length ∧ (∀ M, f.M = some M → g.length ≤ M) ∧ ∀ c ∈ g, atomChar T E f.atom c = true := by
+  unfold fragAccepts
+  cases hfa : f.atom <;> cases hM : f.M <;> simp_all [and_assoc]
+
+theorem takeUpTo_spec (p : Char → Bool) (Mx : Nat) (s : Line) (n : Nat) (h : n ≤ takeUpTo p Mx s) :
+    n ≤ Mx ∧ n ≤ s.length ∧ ∀ c ∈ s.take n, p c = true := by
+  induction Mx generalizing s n with
+  | zero => simp [takeUpTo] at h; subst h; simp
+  | succ Mx ih =>
+    cases s with
+    | nil => simp [takeUpTo] at h; subst h; simp
+    | cons c cs =>
+      cases n with
+      | zero => simp
+      | succ n =>
+        simp only [takeUpTo] at h
+        split at h
+        · obtain ⟨h1, h2, h3⟩ := ih cs n (by omega)
+          refine ⟨by omega, by simp; omega, ?_⟩
+          intro x hx
+          simp only [List.take_succ_cons, List.mem_cons] at hx
+          rcases hx with rfl | hx
+          · assumption
+          · exact h3 x hx
+        · omega
+
+theorem takeUpTo_ge (p : Char → Bool) (Mx : Nat) (s : Line) (n : Nat) (h1 : n ≤ Mx) (h2 : n ≤ s.length)
+    (h3 : ∀ c ∈ s.take n, p c = true) : n ≤ takeUpTo p Mx s := by
+  induction Mx generalizing s n with
+  | zero => omega
+  | succ Mx ih =>
+    cases n with
+    | zero => omega
+    | succ n =>
+      cases s with
+      | nil => simp at h2
+      | cons c cs =>
+        simp only [List.take_succ_cons, List.mem_cons, forall_eq_or_imp] at h3
+        simp only [takeUpTo, h3.1, if_true]
+        have := ih cs n (by omega) (by simpa using h2) h3.2
+        omega
+
+theorem isPrefix_eq (lit s : Line) (h : isPrefix lit s = true) : s = lit ++ s.drop lit.length := by
+  induction lit generalizing s with
+  | nil => simp
+  | cons a as ih =>
+    cases s with
+    | nil => simp [isPrefix] at h
+    | cons b bs =>
+      simp only [isPrefix, Bool.and_eq_true, beq_iff_eq] at h
+      obtain ⟨rfl, h⟩ := h
+      simpa using ih bs h
+
+theorem isPrefix_append (lit r : Line) : isPrefix lit (lit ++ r) = true := by
+  induction lit with
+  | nil => simp [isPrefix]
+  | cons a as ih => simp [isPrefix, ih]
+
+theorem tryCounts_sound (T : CharTable) (E : List Char) (f : Frag) (fs : List Frag) (s : Line)
+    (ih : ∀ s caps, matchCap T E fs s = some caps → caps.flatten = s ∧ PiecesOK T E fs caps)
+    (k : Nat) (caps : List Line) (h : tryCounts T E f fs s k = some caps) :
+    ∃ j r, j ≤ k ∧ f.lo ≤ j ∧ caps = s.take j :: r ∧ r.flatten = s.drop j ∧ PiecesOK T E fs r := by
+  induction k with
+  | zero =>
+    rw [tryCounts] at h
+    split at h
+    · rename_i hlo
+      cases hm : matchCap T E fs s with
+      | none => simp [hm] at h
+      | some r =>
+        simp [hm] at h
+        obtain ⟨h1, h2⟩ := ih s r hm
+        exact ⟨0, r, by omega, by simpa using hlo, by simp [h], by simpa using h1, h2⟩
+    · simp at h
+  | succ k ihk =>
+    rw [tryCounts] at h
+    split at h
+    · simp at h
+    · rename_i hlo
+      split at h
+      · rename_i r hm
+        simp at h
+        obtain ⟨h1, h2⟩ := ih _ r hm
+        exact ⟨k + 1, r, by omega, by omega, h.symm, h1, h2⟩
+      · obtain ⟨j, r, h1, h2⟩ := ihk h
+        exact ⟨j, r, by omega, h2⟩
+
+theorem matchCap_piecesOK (T : CharTable) (E : List Char) (p : Pattern) (s : Line) (caps : List Line)
+    (h : matchCap T E p s = some caps) : caps.flatten = s ∧ PiecesOK T E p caps := by
+  induction p generalizing s caps with
+  | nil =>
+    rw [matchCap] at h
+    split at h
+    · cases s <;> simp_all [PiecesOK]
+    · simp at h
+  | cons f fs ih =>
+    rw [matchCap] at h
+    split at h
+    · rename_i lit hlit
+      split at h
+      · rename_i hpre
+        cases hm : matchCap T E fs (s.drop lit.length) with
+        | none => simp [hm] at h
+        | some r =>
+          simp [hm] at h
+          obtain ⟨h1, h2⟩ := ih _ r hm
+          subst h
+          refine ⟨?_, ?_, h2⟩
+          · simp only [List.flatten_cons, h1]
+            exact (isPrefix_eq lit s hpre).symm
+          · simp [fragAccepts, hlit]
+      · simp at h
+    · rename_i hne
+      obtain ⟨j, r, h1, h2, h3, h4, h5⟩ := tryCounts_sound T E f fs s ih _ caps h
+      subst h3
+      refine ⟨by simp [h4], ?_, h5⟩
+      obtain ⟨t1, t2, t3⟩ := takeUpTo_spec _ _ _ _ h1
+      rw [fragAccepts_iff T E f (fun lit hl => hne lit hl)]
+      refine ⟨by simp; omega, ?_, t3⟩
+      intro M hM
+      simp only [hM] at t1
+      simp; omega
+
+theorem tryCounts_complete (T : CharTable) (E : List Char) (f : Frag) (fs : List Frag) (s : Line) (j : Nat)
+    (hlo : f.lo ≤ j) (hrest : (matchCap T E fs (s.drop j)).isSome = true) (k : Nat) (hk : j ≤ k) :
+    (tryCounts T E f fs s k).isSome = true := by
+  induction k with
+  | zero =>
+    obtain rfl : j = 0 := by omega
+    rw [tryCounts]
+    have : f.lo = 0 := by omega
+    simpa [this] using hrest
+  | succ k ih =>
+    rw [tryCounts]
+    rw [if_neg (by omega)]
+    split
+    · rfl
+    · rename_i hm
+      apply ih
+      rcases Nat.lt_or_ge j (k + 1) with h | h
+      · omega
+      · obtain rfl : j = k + 1 := by omega
+        simp [hm] at hrest
+
 theorem matchCap_sound (T : CharTable) (E : List Char) (p : Pattern) (s : Line) (caps : List Line)
     (h : matchCap T E p s = some caps) :
     caps.flatten = s ∧ caps.length = p.length ∧
     (∀ i, i < p.length → fragAccepts T E (p.getD i ⟨.code ' ', 0, none, false⟩) (caps.getD i []) = true) ∧
     Matches T E p s := by
-  sorry
+  obtain ⟨h1, h2⟩ := matchCap_piecesOK T E p s caps h
+  obtain ⟨h3, h4⟩ := (piecesOK_iff T E p caps).1 h2
+  exact ⟨h1, h3, h4, h1 ▸ matches_of_piecesOK T E p caps h2⟩
 
 theorem matchCap_complete (T : CharTable) (E : List Char) (p : Pattern) (s : Line)
     (h : Matches T E p s) : (matchCap T E p s).isSome = true := by
-  sorry
-
-theorem coarse_sound (T : CharTable) (hT : Consistent T) (E : List Char) (hE : E = normExtras E) (c : Char) :
-    inCat T E (coarse T E c) c = true := by
-  sorry
+  induction h with
+  | nil => simp [matchCap]
+  | cons f fs g rest hacc _ ih =>
+    rw [matchCap]
+    split
+    · rename_i lit hlit
+      simp only [fragAccepts, hlit, beq_iff_eq] at hacc
+      subst hacc
+      simp [isPrefixStr, isPrefix_append, ih]
+    · rename_i hne
+      rw [fragAccepts_iff T E f (fun lit hl => hne lit hl)] at hacc
+      obtain ⟨a1, a2, a3⟩ := hacc
+      apply tryCounts_complete T E f fs (g ++ rest) g.length a1 (by simpa using ih)
+      apply takeUpTo_ge
+      · split
+        · rename_i M hM; exact a2 M hM
+        · simp
+      · simp
+      · simpa using a3
 
 /-- `Matches` from explicit pieces -/
 theorem matches_of_pieces (T : CharTable) (E : List Char) (p : Pattern) (caps : List Line)
     (hl : caps.length = p.length)
     (h : ∀ i, i < p.length → fragAccepts T E (p.getD i ⟨.code ' ', 0, none, false⟩) (caps.getD i []) = true) :
-    Matches T E p caps.flatten := by
-  sorry
+    Matches T E p caps.flatten :=
+  matches_of_piecesOK T E p caps ((piecesOK_iff T E p caps).2 ⟨hl, h⟩)
 
 /-- and back: a match gives pieces -/
 theorem pieces_of_matches (T : CharTable) (E : List Char) (p : Pattern) (s : Line) (h : Matches T E p s) :
     ∃ caps : List Line, caps.flatten = s ∧ caps.length = p.length ∧
       ∀ i, i < p.length → fragAccepts T E (p.getD i ⟨.code ' ', 0, none, false⟩) (caps.getD i []) = true := by
-  sorry
+  obtain ⟨caps, h1, h2⟩ := piecesOK_of_matches T E p s h
+  exact ⟨caps, h1, (piecesOK_iff T E p caps).1 h2⟩
 
 /-- matching is compositional -/
 theorem matches_append (T : CharTable) (E : List Char) (p q : Pattern) (s t : Line)
     (hp : Matches T E p s) (hq : Matches T E q t) : Matches T E (p ++ q) (s ++ t) := by
-  sorry
+  induction hp with
+  | nil => simpa using hq
+  | cons f fs g rest hacc _ ih =>
+    rw [List.cons_append, List.append_assoc]
+    exact Matches.cons f (fs ++ q) g (rest ++ t) hacc ih
+
+/-! ### categories -/
+
+section cats
+set_option linter.unusedSimpArgs false
+
+local macro "cat_simp" : tactic =>
+  `(tactic| simp [inCat, cLETTER, cletter, cLetter, cULetter, cLETTER_, cletter_, cLetter_, cULetter_, cDigit,
+      chex, cHEX, cHex, cALPHANUMERIC, calphanumeric, cAlphaNumeric, cUAlpha, cWhite, cPunc, cOther, cAny])
+
+variable (T : CharTable) (E : List Char) (c : Char)
+
+theorem inCat_cLETTER : inCat T E cLETTER c = asciiUpper c := by cat_simp
+theorem inCat_cletter : inCat T E cletter c = asciiLower c := by cat_simp
+theorem inCat_cLETTER_ : inCat T E cLETTER_ c = (asciiUpper c || E.contains c) := by cat_simp
+theorem inCat_cULetter_ : inCat T E cULetter_ c =
+    ((T.w c && !asciiDigit c && (c != '_' || E.contains '_')) || (E.filter (· != '_')).contains c) := by
+  cat_simp
+theorem inCat_cDigit : inCat T E cDigit c = T.d c := by cat_simp
+theorem inCat_cUAlpha : inCat T E cUAlpha c =
+    ((T.w c && (c != '_' || E.contains '_')) || (E.filter (· != '_')).contains c) := by cat_simp
+theorem inCat_cWhite : inCat T E cWhite c = T.s c := by cat_simp
+theorem inCat_cPunc : inCat T E cPunc c =
+    (32 ≤ c.toNat && c.toNat ≤ 126 &&
+      !(asciiUpper c || asciiLower c || asciiDigit c || T.s c || E.contains c)) := by cat_simp
+theorem inCat_cOther : inCat T E cOther c = (!(33 ≤ c.toNat && c.toNat ≤ 126) && !T.s c) := by cat_simp
+theorem inCat_cAny : inCat T E cAny c = true := by cat_simp
+
+end cats
+
+theorem mem_normExtras (E : List Char) (hE : E = normExtras E) (c : Char) (h : c ∈ E) :
+    c = '_' ∨ c = '.' ∨ c = '-' := by
+  rw [hE] at h
+  simp only [normExtras, List.mem_filter, List.mem_cons, List.not_mem_nil, or_false] at h
+  exact h.1
+
+theorem coarse_sound (T : CharTable) (hT : Consistent T) (E : List Char) (hE : E = normExtras E) (c : Char) :
+    inCat T E (coarse T E c) c = true := by
+  have _ := hE
+  unfold coarse
+  split
+  · assumption
+  · split
+    · assumption
+    · split
+      · assumption
+      · rename_i h1 h2 h3
+        rw [inCat_cUAlpha] at h1
+        rw [inCat_cWhite] at h2
+        rw [inCat_cPunc] at h3
+        rw [inCat_cOther]
+        have h2' : T.s c = false := by simpa using h2
+        simp only [h2', Bool.not_false, Bool.and_true, Bool.not_eq_true', Bool.and_eq_false_iff,
+          decide_eq_false_iff_not]
+        by_cases hr : 33 ≤ c.toNat ∧ c.toNat ≤ 126
+        · exfalso
+          obtain ⟨hr1, hr2⟩ := hr
+          have hr0 : 32 ≤ c.toNat := by omega
+          simp [h2', hr0, hr2] at h3
+          simp at h1
+          obtain ⟨hw, hin⟩ := h1
+          by_cases hal : asciiUpper c = true ∨ asciiLower c = true ∨ asciiDigit c = true
+          · have hwc : T.w c = true := hT.1 c (by rcases hal with h | h | h <;> simp [h])
+            obtain ⟨rfl, -⟩ := hw hwc
+            revert hal; decide
+          · have hcE : c ∈ E := h3 (by simpa using fun h => hal (Or.inl h))
+              (by simpa using fun h => hal (Or.inr (Or.inl h)))
+              (by simpa using fun h => hal (Or.inr (Or.inr h)))
+            have hc := hin hcE
+            subst hc
+            exact (hw (hT.1 '_' (by simp))).2 hcE
+        · omega
 
 /-- fine_class is sound for alphanumeric characters: the class it names accepts the character -/
 theorem fineClass_sound (T : CharTable) (hT : Consistent T) (E : List Char) (hE : E = normExtras E) (c : Char)
     (hc : inCat T E cUAlpha c = true) : inCat T E (fineClass T E c) c = true := by
-  sorry
+  have _ := hE
+  unfold fineClass
+  split
+  · rw [inCat_cDigit]; assumption
+  · split
+    · rw [inCat_cletter]; assumption
+    · split
+      · rw [inCat_cLETTER]; assumption
+      · split
+        · rename_i hcE; rw [inCat_cLETTER_, hcE]; simp
+        · rename_i hd _ _ _
+          rw [inCat_cULetter_]
+          rw [inCat_cUAlpha] at hc
+          have hnd : asciiDigit c = false := by
+            cases h : asciiDigit c with
+            | false => rfl
+            | true => exact absurd (hT.2.1 c h) hd
+          simpa [hnd] using hc
 
 end TddaVerif.Props.C03.Lemmas
